@@ -204,15 +204,29 @@ pub fn pkt_of(e: &Value) -> Vec<u8> {
     Vec::new()
 }
 
-pub fn drive(family: &str, thorough: bool, seed: u64, r: &mut Runner) {
+pub fn drive(family: &str, thorough: bool, seed_val: u64, r: &mut Runner) {
     let mut d = D {
         r,
-        g: Rng::new(seed),
+        g: Rng::new(seed_val),
         thorough,
     };
     match family {
-        "seed" => crate::drivers::seed(&mut d),
-        "roundtrip" => roundtrip(&mut d),
+        "seed" => seed(&mut d),
+        "requests" => crate::drivers_enc::requests(&mut d),
+        "responses" => crate::drivers_enc::responses(&mut d),
+        "vendor" => crate::drivers_enc::vendor(&mut d),
+        "lengths" => crate::drivers_enc::lengths(&mut d),
+        "hdr_sweep" => crate::drivers_enc::hdr_sweep(&mut d),
+        "corrupt" => crate::drivers_rx::corrupt(&mut d),
+        "mutate" => crate::drivers_rx::mutate(&mut d),
+        "robust" => crate::drivers_rx::robust(&mut d),
+        "forge" => crate::drivers_rx::forge(&mut d),
+        "history" => crate::drivers_rx::history(&mut d),
+        "vendor_enum" => crate::drivers_rx::vendor_enum(&mut d),
+        "identity" => crate::drivers_rx::identity(&mut d),
+        "probe" => crate::drivers_rx::probe(&mut d),
+        "headers" => crate::drivers_misc::headers(&mut d),
+        "conv" => crate::drivers_misc::conv(&mut d),
         _ => {
             eprintln!("harness: unknown driver family '{}'", family);
             std::process::exit(2)
@@ -262,7 +276,3 @@ fn seed(d: &mut D) {
     }
 }
 
-fn roundtrip(d: &mut D) {
-    d.std_ctxs();
-    let _ = d.thorough;
-}
